@@ -7,13 +7,13 @@ HERE = os.path.dirname(os.path.dirname(os.path.abspath(__file__)))
 # id -> (technique, level text, level note, design ref)
 CHECKS = {
  "C01": ("crash/hang/wedge monitor: return-vs-unwind per call in an overflow-checked build inside watchdogged worker processes + liveness probe; ASan, valgrind memcheck and Miri slices (thorough)",
-         "exploration: every feed/API/resize/display call of ~270k cases per quick run (sessions, hostile mutations, class-alphabet strings after 14 state-setting prefixes, all 2-byte strings, API sequences with arguments in {absent} U [0,9999], captured sessions; chars and bytes, UTF-8 and 8-bit, three chunkings; geometries 1x1..140x40) must return, then display() must return `lines` rows and BEL BEL CAN ESC c + sentinel must draw the sentinel; thorough adds AddressSanitizer, valgrind memcheck (both run the coroutine) and Miri (Screen API only) slices",
+         "exploration: every feed/API/resize/display call of ~270k cases per quick run (sessions, hostile mutations, class-alphabet strings after 14 state-setting prefixes, every pool sequence cut at every byte and fed unit by unit, all 2-byte strings, API sequences with arguments in {absent} U [0,9999], captured sessions; chars and bytes, UTF-8 and 8-bit, three chunkings; geometries 1x1..140x40) must return, then display() must return `lines` rows and BEL BEL CAN ESC c + sentinel must draw the sentinel; the coroutine-stack high-water mark is measured on every 64th parser case; thorough adds AddressSanitizer, valgrind memcheck (both run the coroutine) and Miri (Screen API only) slices",
          "'no unbounded loop' restated as bounded progress under a watchdog (a stall counts only after three isolated re-runs); sanitizers see only the paths driven; Miri cannot run the parser coroutine", "§6 C01, §5"),
  "C02": ("model-free differential pair monitor: whole-stream run vs chunked runs, full snapshots compared",
-         "exploration: ~1.3M stream/partition pairs per quick run: every 2-way cut of short streams (incl. inside UTF-8 sequences and escape sequences), unit-at-a-time, random k-way cuts with empty chunks, for Parser, ByteParser UTF-8 and ByteParser 8-bit, plus random cuts of the seven captured sessions",
+         "exploration: ~1.3M stream/partition pairs per quick run: every 2-way cut of short streams (incl. inside UTF-8 sequences and escape sequences), every 3-way cut of very short ones, unit-at-a-time, random k-way cuts with empty chunks, for Parser, ByteParser UTF-8 and ByteParser 8-bit, plus random cuts of the seven captured sessions",
          "both runs are the implementation itself: a chunk-independent but wrong result is other properties' business", "§6 C02"),
  "C03": ("event-log conformance against an independently written explicit-state recogniser; class-alphabet strings enumerated with ground-state pruning",
-         "exploration with an exhaustive sub-domain: all strings up to length 4 (quick) / 6 (thorough) over a 73-character class alphabet whose proper prefixes keep the reference outside ground, both parser modes, plus digit runs of 1..40 digits for every final, random long strings and mutated sessions; the listener's dispatch tables are inside the observed system",
+         "exploration with an exhaustive sub-domain: all strings up to length 4 (quick) / 6 (thorough) over a 73-character class alphabet whose proper prefixes keep the reference outside ground, both parser modes, plus all ordered pairs of a pool of 313 complete/aborted/skipped sequences, digit runs of 1..40 digits and parameters around the machine-integer widths for every final, the three dispatch tables called directly, random long strings and mutated sessions; the listener's dispatch tables are inside the observed system",
          "where the statement is silent the reference follows the documented pyte recogniser; OSC R/P and multi-character OSC codes are don't-care; Cc characters ignored in text comparison", "§6 C03, App. A"),
  "C04": ("per-step Hoare monitor: reference drawing semantics on the implementation's own pre-state; zoo states x text classes, API + parser path",
          "exploration: ~1M judged draw() calls per quick run over zoo states (pending wrap, IRM, DECAWM off, margins, wide/combining content, 1-column screens) and a 40-character class pool (singles, all ordered pairs, random strings)",
@@ -37,7 +37,7 @@ CHECKS = {
          "exploration: ~280k history pairs and ~110k renderings per quick run; for histories <= 30 ops display() is interposed before each single op, before every op and before random subsets; full snapshots after every op and the final display() must be equal",
          "a non-placeholder cell after a double-width lead may be rendered or skipped (statement silent)", "§6 C10"),
  "C11": ("differential event-log monitor: ByteParser on chunks vs the same recogniser on std's lossy decoding of the concatenation",
-         "exploration with an exhaustive sub-domain: every boundary/ill-formed UTF-8 form and each of its truncations in four contexts, all byte strings of length <= 3 over a 24-byte class alphabet, each whole, at every 2-way cut and byte-at-a-time; random byte strings, mutated sessions and mode switches between chunks",
+         "exploration with an exhaustive sub-domain: every boundary/ill-formed UTF-8 form and each of its truncations in four contexts, all byte strings of length <= 3 over a 24-byte class alphabet, each whole, at every 2-way cut, every 3-way cut (strings <= 9 bytes) and byte-at-a-time; random byte strings, mutated sessions and mode switches between chunks",
          "String::from_utf8_lossy is the trusted reference decoder; a partial sequence pending at a mode switch may be dropped or replaced", "§6 C11"),
  "C12": ("per-step Hoare monitor: mode-set bookkeeping + side-effect table; exhaustive mode numbers",
          "exploration with an exhaustive sub-domain: every mode number 0..=9999 x {private, ANSI} x {SM, RM} x {API, parser} from several zoo states, plus lists, repeats and interleavings with DECSC/DECRC, resize and drawing",
@@ -61,7 +61,7 @@ CHECKS = {
          "exploration with an exhaustive sub-domain: default stops and HT from every column incl. pending wrap for every width 1..=140; random HTS/TBC sequences followed by an HT walk; width changes between setting and using a stop",
          "the stop set is observed through the public tabstops field and compared exactly, also beyond the right edge", "§6 C18"),
  "C19": ("generated OSC strings with the expected title/icon known by construction, real Screen, all terminators/introducers/cuts",
-         "exploration with an exhaustive sub-domain: 2 introducers x 19 codes x 3 terminators x 108 payloads incl. every printable ASCII singleton, every 2-way cut for codes 0/1/2, Parser and ByteParser; random payloads up to 4096 characters",
+         "exploration with an exhaustive sub-domain: 2 introducers x 19 codes x 3 terminators x 108 payloads incl. every printable ASCII singleton, every 2-way cut for codes 0/1/2, Parser and ByteParser; all ordered pairs (and some triples) of OSC strings on one parser; random payloads up to 4096 characters",
          "codes R and P excluded (see C03)", "§6 C19"),
  "C20": ("exhaustive table check through draw(): cell text vs golden tables derived independently of the repository; API, Parser and ByteParser paths",
          "exhaustive on the finite domain (256 code points x 4 tables x {G0,G1} x {SI,SO} via the API; every drawable byte x the same configurations via ByteParser and Parser in 8-bit mode; defaults after construction/RIS; every designator final; UTF-8 mode ignores shifts/designators) plus per-step judging of SO/SI/designations in random traffic",
@@ -114,7 +114,7 @@ def main():
             "name": "mtverif",
             "path": "/verif/harness",
             "serves_properties": [c["property_id"] for c in checks],
-            "kind_free_text": "Rust harness linking the real memterm crate: recording pass-through listener, normalised snapshots, reference semantics applied per step to the implementation's own pre-state, model-free pair monitors, event-log checkers; 16 worker processes with panic capture, crash attribution and watchdog; ASan / valgrind / Miri slices for C01",
+            "kind_free_text": "Rust harness linking the real memterm crate: recording pass-through listener, normalised snapshots, reference semantics applied per step to the implementation's own pre-state (API path, parser path with a dispatch comparison against a reference recogniser, and long sessions judged call by call), model-free pair monitors, event-log checkers; 16 worker processes with panic capture, crash attribution, progress watchdog and replayable witnesses; ASan slices for every thorough tier, valgrind and Miri slices for C01",
         }],
         "checks": checks,
         "not_applicable": na,
